@@ -88,9 +88,6 @@ func VerifC04DeleteTwice() {
 
 		err := db.DeleteTimeRange(ctx, chs, tr)
 		verifObserveBool("err", err != nil)
-		if err != nil {
-			verifObserveStr("errmsg", err.Error())
-		}
 
 		filter := func(ts []uint64) (out []uint64, any bool) {
 			for _, t := range ts {
